@@ -60,7 +60,9 @@ Class(ev, e) ==
    ELSE IF e.kind = "WrongArgument" /\ e.lhs = "Any" /\ e.rhs = "Undefined"
    THEN "a block function or aggregation is accepted where a compile-time value is required"
    \* the static kind of an element of a mixed array is Any, which every position accepts
-   ELSE IF Contains(ev.filler, "H1[") /\ e.kind \in {"WrongArgument", "BinOpError", "UnOpError"}
+   \* (H1 = [1, "a"]; X3 = [[1, 2], ["a", "b"]] is an array of Any too and X3[1] an Any, but X3[1][0] indexes
+   \* an Any, which the checker refuses: if it is accepted, that is not this class)
+   ELSE IF (Contains(ev.filler, "H1[") \/ ev.filler \in {"X3", "X3[1]"}) /\ e.kind \in {"WrongArgument", "BinOpError", "UnOpError"}
    THEN "an element of a mixed (Any) array is accepted where a specific kind is required"
    ELSE "type-class error " \o e.kind
 
